@@ -27,7 +27,9 @@ impl TokenSet {
     }
 
     pub(crate) const fn contains(&self, kind: SyntaxKind) -> bool {
-        self.0 & mask(kind) != 0
+        // A `TokenSet` holds token kinds only (discriminants below 128). Any other
+        // kind, e.g. a node kind handed over by the lexer, is never a member.
+        (kind as usize) < 128 && self.0 & mask(kind) != 0
     }
 }
 
